@@ -7,9 +7,11 @@ stages:
   {'op':'residual','cout'}                                 relu(convA(T) + convB(T))
   {'op':'skipadd'}                                         relu(T + conv(T))
   {'op':'pool','kind':'max'|'avg'}
+  {'op':'relu'}                                            stand-alone ReLU
   {'op':'twice','pool':bool}                                relu(conv(T)) [-> maxpool] -> relu(conv(.)) with the SAME conv (c -> c)
   {'op':'sn','branches':[b...], 'twice': bool, 'gumbel': bool, 'hard': bool}
         SuperNetModule; branch kinds: 'c3' conv3x3, 'c1' conv1x1, 'c5' conv5x5, 'seq' Sequential(conv3x3, BN, ReLU),
+        'c3s2' / 'poolconv' / 'convpool' / 'bneck': down-sampling branches (stride-2 conv; pool -> conv1x1; conv3x3 -> pool; 1x1 -> strided dw -> 1x1),
         'blk' user block (conv3x3 -> relu -> conv1x1) ending in a sub-module call, 'fblk' user block ending in a functional relu,
         'nest' nested user block (blk inside a wrapper), 'dw' depthwise-separable Sequential, 'id' Identity (needs cin == cout)
 """
@@ -67,6 +69,15 @@ def make_branch(kind, cin, cout):
         return FBlk(cin, cout)
     if kind == 'nest':
         return Nest(cin, cout)
+    # down-sampling branches (all halve the resolution): layers of one branch work at DIFFERENT resolutions
+    if kind == 'c3s2':
+        return nn.Conv2d(cin, cout, 3, stride=2, padding=1)
+    if kind == 'poolconv':
+        return nn.Sequential(nn.MaxPool2d(2), nn.Conv2d(cin, cout, 1))
+    if kind == 'convpool':
+        return nn.Sequential(nn.Conv2d(cin, cout, 3, padding=1), nn.ReLU(), nn.MaxPool2d(2))
+    if kind == 'bneck':
+        return nn.Sequential(nn.Conv2d(cin, cout, 1), nn.ReLU(), nn.Conv2d(cout, cout, 3, stride=2, padding=1, groups=cout), nn.Conv2d(cout, cout, 1))
     if kind == 'id':
         assert cin == cout
         return nn.Identity()
@@ -115,6 +126,8 @@ class Net2d(nn.Module):
                 self.blocks[f's{i}a'] = Conv(c, c, 3, padding=1)
             elif op == 'pool':
                 self.blocks[f's{i}'] = MaxP(2) if st.get('kind', 'max') == 'max' else AvgP(2)
+            elif op == 'relu':        # a stand-alone activation (e.g. conv -> BN -> pool -> ReLU orderings)
+                self.blocks[f's{i}'] = nn.ReLU()
             elif op == 'twice':       # one conv (c -> c) invoked at two call sites, optionally at two resolutions
                 self.blocks[f's{i}'] = Conv(c, c, st.get('k', 3), padding=st.get('k', 3) // 2)
                 if st.get('pool'):
@@ -173,7 +186,7 @@ class Net2d(nn.Module):
                 x = torch.relu(self.blocks[f's{i}a'](x) + self.blocks[f's{i}b'](x))
             elif op == 'skipadd':
                 x = torch.relu(x + self.blocks[f's{i}a'](x))
-            elif op == 'pool':
+            elif op in ('pool', 'relu'):
                 x = self.blocks[f's{i}'](x)
             elif op == 'twice':
                 x = torch.relu(self.blocks[f's{i}'](x))
